@@ -3,26 +3,34 @@
     computation for the witnesses).
 
     Reading guide (Model/Tmpl.v): [fl : flavour] selects html/text provider and pre/post-fix
-    variants; [good fl] = "an html provider hands out clones of its cached base/layout" (true for
-    the current html provider [html_now] and the current text provider [text_now]);
-    [run_obs fl cached fs qs] = the answers (error / the definition map of the returned template)
-    to the request sequence [qs] on the file set [fs]; [req_ok] = layout names of View requests
-    contain no ':' (known key collision, see [C19_keycollision_refuted]);
-    [dir_defs files] = the definitions of one directory's files in walk order. *)
+    variants; [good fl] = "an html provider hands out clones of its cached base/layout and the
+    views cache key determines (layout, view)" (true for the current html provider [html_now] and
+    the current text provider [text_now]); [run_obs fl cached fs qs] = the answers (error / the
+    definition map of the returned template) to the request sequence [qs] on the file set [fs];
+    [dir_defs files] = the definitions of one directory's files in walk order.  There is no
+    restriction on layout or view names any more (the key collision was repaired in 7035bfe;
+    [C19_keycollision_refuted] is the witness for the old key). *)
 From GC Require Import Common.Base Model.Tmpl Proofs.Tmpl.
 
 (** Master statement: whatever was requested before (including callers executing what they got),
     caching on or off, html or text: the answers are exactly the specified ones — each Base /
     Layout / View answer is a function of the file set alone. *)
 Theorem C19_answers_spec : forall fl c fs qs,
-  good fl -> forallb req_ok qs = true -> run_obs fl c fs qs = spec_run fs qs.
-Proof. exact run_spec. Qed.
+  good fl -> run_obs fl c fs qs = spec_run fs qs.
+Proof. exact run_spec_good. Qed.
 Print Assumptions C19_answers_spec.
+
+(** The old string key (layout ++ ":" ++ view) gives the same as long as no layout name in a
+    View request contains ':'. *)
+Theorem C19_answers_spec_oldkey : forall fl c fs qs,
+  good_clone fl -> forallb req_ok qs = true -> run_obs fl c fs qs = spec_run fs qs.
+Proof. exact run_spec_oldkey. Qed.
+Print Assumptions C19_answers_spec_oldkey.
 
 (** Layers: at any position of any request history, a view has the helper definitions, the
     definitions of its layout and its own, the more specific layer overriding. *)
 Theorem C19_layers : forall fl c fs qs i l v Hd Ld Vd,
-  good fl -> forallb req_ok qs = true -> nth_error qs i = Some (RView l v) -> v <> [] ->
+  good fl -> nth_error qs i = Some (RView l v) -> v <> [] ->
   dir_defs (helper_files fs) = Some Hd ->
   dir_defs (layout_files fs (defname l)) = Some Ld ->
   dir_defs (view_files fs v) = Some Vd ->
@@ -37,7 +45,7 @@ Print Assumptions C19_layers.
 (** ... and it is an error exactly when the view name is empty or one of the three layers has
     an empty / malformed file (together with [C19_layers] this covers every case). *)
 Theorem C19_layers_err : forall fl c fs qs i l v,
-  good fl -> forallb req_ok qs = true -> nth_error qs i = Some (RView l v) ->
+  good fl -> nth_error qs i = Some (RView l v) ->
   (v = [] \/ dir_defs (helper_files fs) = None \/ dir_defs (layout_files fs (defname l)) = None \/
    dir_defs (view_files fs v) = None) ->
   nth_error (run_obs fl c fs qs) i = Some OErr.
@@ -47,7 +55,7 @@ Print Assumptions C19_layers_err.
 (** Isolation: a definition name that occurs only in the files of view v1 is absent from the
     base, from every layout and from every other view — for every request history. *)
 Theorem C19_isolation : forall fl c fs qs i q n v1,
-  good fl -> forallb req_ok qs = true -> nth_error qs i = Some q ->
+  good fl -> nth_error qs i = Some q ->
   only_in_view fs n v1 ->
   match q with RBase | RLayout _ => True | RView _ v2 => v2 <> v1 | RExec _ => False end ->
   exists o, nth_error (run_obs fl c fs qs) i = Some o /\ absent n o.
@@ -57,20 +65,20 @@ Print Assumptions C19_isolation.
 (** Caching is transparent: same answers with caching on and off, for every file set and every
     request sequence including Execute steps. *)
 Theorem C19_cache_transparent : forall fl fs qs,
-  good fl -> forallb req_ok qs = true -> run_obs fl true fs qs = run_obs fl false fs qs.
+  good fl -> run_obs fl true fs qs = run_obs fl false fs qs.
 Proof. exact cache_transparent. Qed.
 Print Assumptions C19_cache_transparent.
 
 (** Asking twice (anywhere in a history) gives equal templates. *)
 Theorem C19_twice : forall fl c fs qs i j q,
-  good fl -> forallb req_ok qs = true -> nth_error qs i = Some q -> nth_error qs j = Some q ->
+  good fl -> nth_error qs i = Some q -> nth_error qs j = Some q ->
   pure_req q = true -> nth_error (run_obs fl c fs qs) i = nth_error (run_obs fl c fs qs) j.
 Proof. exact twice. Qed.
 Print Assumptions C19_twice.
 
 (** The html and the text provider give the same answers. *)
 Theorem C19_providers_agree : forall c c' fs qs,
-  forallb req_ok qs = true -> run_obs html_now c fs qs = run_obs text_now c' fs qs.
+  run_obs html_now c fs qs = run_obs text_now c' fs qs.
 Proof. exact providers_agree. Qed.
 Print Assumptions C19_providers_agree.
 
@@ -84,14 +92,14 @@ Print Assumptions C19_race_free.
 (** ... and every thread that has finished serves its own request and holds exactly the
     specified answer (so all callers of one request get equal definition maps). *)
 Theorem C19_concurrent_answers : forall fl c fs qs sched t q r,
-  forallb creq_ok qs = true ->
+  inj_key fl = true ->
   nth_error (cthr (crun fl c fs sched (cinit fl qs))) t = Some (TDone q r) ->
   nth_error qs t = Some q /\ obs_of (cp (crun fl c fs sched (cinit fl qs))) r = creq_spec fs q.
 Proof. exact conc_answers_full. Qed.
 Print Assumptions C19_concurrent_answers.
 
 Theorem C19_concurrent_equal : forall fl c fs qs sched t1 t2 q r1 r2,
-  forallb creq_ok qs = true ->
+  inj_key fl = true ->
   let s := crun fl c fs sched (cinit fl qs) in
   nth_error (cthr s) t1 = Some (TDone q r1) -> nth_error (cthr s) t2 = Some (TDone q r2) ->
   obs_of (cp s) r1 = obs_of (cp s) r2.
@@ -127,18 +135,19 @@ Theorem C19_F25_refuted :
 Proof. exists [0; 0; 0]%nat. vm_compute. split; reflexivity. Qed.
 Print Assumptions C19_F25_refuted.
 
-(** Known finding, not repaired: the views cache is keyed by layout ++ ":" ++ view, so
-    ("a:b","c") and ("a","b:c") collide; with caching on the second request gets the first
-    template.  This is why the positive theorems require [req_ok]. *)
+(** Before 7035bfe the views cache was keyed by layout ++ ":" ++ view, so ("a:b","c") and
+    ("a","b:c") collided: with caching on the second request got the first template.  With the
+    current key the same history is answered correctly. *)
 Definition fsK : tfs :=
   {| f_ext := [46;116]; f_helpers := None; f_layouts := [];
      f_views := [([99], [NFile [102;46;116] (Some [([97], 1%N)])]);
                  ([98;58;99], [NFile [102;46;116] (Some [([97], 2%N)])])] |}.
 Theorem C19_keycollision_refuted :
   let qs := [RView [97;58;98] [99]; RView [97] [98;58;99]] in
-  run_obs html_now true fsK qs <> run_obs html_now false fsK qs /\
-  run_obs text_now true fsK qs <> run_obs text_now false fsK qs.
-Proof. vm_compute. split; discriminate. Qed.
+  run_obs html_oldkey true fsK qs <> run_obs html_oldkey false fsK qs /\
+  run_obs text_oldkey true fsK qs <> run_obs text_oldkey false fsK qs /\
+  run_obs html_now true fsK qs = [OTmpl [([97], 1%N)]; OTmpl [([97], 2%N)]].
+Proof. vm_compute. repeat split; discriminate. Qed.
 Print Assumptions C19_keycollision_refuted.
 
 (* ------------------------------------------------------------------------------------------ *)
@@ -150,7 +159,8 @@ Example ex_good_text : good text_now. Proof. exact good_text_now. Qed.
 Definition qsW : list req :=
   [RLayout []; RExec 0%nat; RView [] [118]; RView DEFAULT [119]; RExec 2%nat; RBase; RView [] [118]; RView [] []; RView [] [122]].
 
-Example ex_req_ok : forallb req_ok qsW = true. Proof. reflexivity. Qed.
+Example ex_oldkey_hyps : good_clone html_oldkey /\ good_clone text_oldkey /\ forallb req_ok qsW = true.
+Proof. repeat split; intros; try reflexivity; discriminate. Qed.
 
 (** the current providers on a history with Execute steps: all four configurations agree, the
     view has all three layers with the view overriding "a", the nested file of view w is found,
@@ -199,7 +209,7 @@ Proof. vm_compute. split; reflexivity. Qed.
 (** concurrent first use: three threads; a schedule under which all of them finish, and one under
     which thread 0 holds the views lock while thread 2 is blocked on it *)
 Definition qsC : list creq := [CView [] [118]; CLayout []; CView [] [118]].
-Example ex_creq_ok : forallb creq_ok qsC = true. Proof. reflexivity. Qed.
+Example ex_inj_key : inj_key html_now = true /\ inj_key text_now = true. Proof. split; reflexivity. Qed.
 Example ex_all_done :
   let sched := (repeat 0 26 ++ repeat 1 13 ++ repeat 2 17)%nat in
   let s := crun html_now true fsW sched (cinit html_now qsC) in
